@@ -75,10 +75,22 @@ func (x *xts) CryptBlocks(dst, src []byte) {
 			encryptSm4Xts(&x.b.enc[0], &x.tweak, dst, src)
 		}
 	} else {
-		if x.isGB {
-			decryptSm4XtsGB(&x.b.dec[0], &x.tweak, dst, src)
-		} else {
-			decryptSm4Xts(&x.b.dec[0], &x.tweak, dst, src)
-		}	
+		// The assembly bulk loops must not consume the last full block when a
+		// partial block follows it (ciphertext stealing uses the last two
+		// tweaks in swapped order), so process the full blocks before it first.
+		if remain := len(src) % BlockSize; remain != 0 && len(src) > 2*BlockSize {
+			head := len(src) - BlockSize - remain
+			x.decrypt(dst[:head], src[:head])
+			dst, src = dst[head:], src[head:]
+		}
+		x.decrypt(dst, src)
+	}
+}
+
+func (x *xts) decrypt(dst, src []byte) {
+	if x.isGB {
+		decryptSm4XtsGB(&x.b.dec[0], &x.tweak, dst, src)
+	} else {
+		decryptSm4Xts(&x.b.dec[0], &x.tweak, dst, src)
 	}
 }
